@@ -18,6 +18,7 @@
 #include <condition_variable>
 #include <cstdint>
 #include <deque>
+#include <exception>
 #include <iostream>
 #include <memory>
 #include <mutex>
@@ -255,6 +256,9 @@ namespace bloch::runtime {
         // Set by the destructor: remaining objects are freed without calling back into the
         // interpreter (no user destructors, no qubit bookkeeping).
         bool m_tearingDown = false;
+        // First error thrown by a user destructor that ran from an object's deleter, where it
+        // cannot propagate; rethrown at the next statement boundary.
+        std::exception_ptr m_pendingDestructorError;
         // Class runtime metadata and heap tracking
         std::unordered_map<std::string, std::shared_ptr<RuntimeClass>> m_classTable;
         std::vector<std::weak_ptr<Object>> m_heap;
@@ -330,6 +334,7 @@ namespace bloch::runtime {
         void markValue(const Value& v);
         void markObject(const std::shared_ptr<Object>& obj);
         void destroyObject(Object* obj, bool runUserDestructor);
+        void rethrowPendingDestructorError();
         Value callMethod(RuntimeMethod* method, RuntimeClass* staticDispatchClass,
                          const std::shared_ptr<Object>& receiver, const std::vector<Value>& args);
         void runConstructorChain(RuntimeClass* cls, const std::shared_ptr<Object>& obj,
